@@ -600,6 +600,24 @@ def mon_c13(ix: Index):
 CB_FAIL = ("FAILED", "TIMED_OUT", "CANCELLED", "STOPPED")
 
 
+def _decodable(sd: str, raw: str) -> bool:
+    """Can the interpreter's serdes `sd` decode the payload an external party delivered? (reference for C14)"""
+    import json as _json
+
+    try:
+        if sd in ("json", "utf8json"):
+            _json.loads(raw)
+        elif sd == "tagged":
+            if not raw.startswith("TAG:"):
+                return False
+            _json.loads(raw[4:])
+        elif sd == "ctxbound":
+            return False  # a payload written by somebody else is never bound to this operation
+        return True
+    except ValueError:
+        return False
+
+
 def mon_c14(ix: Index):  # noqa: C901, PLR0912
     import json as _json
 
@@ -704,6 +722,12 @@ def mon_c14(ix: Index):  # noqa: C901, PLR0912
             mro = e.get("mro") or []
             if e.get("st") == "SUCCEEDED" and e.get("phase") != "create" and "InvocationError" not in mro and mro and mro[0] != "BaseException":
                 n += 1
+                raw = d.get("result") if d else None
+                sd = cfg.get("serdes") if ok_ == "cb" else (cfg.get("serdes_result") or "json")
+                if raw is not None and sd is not None and not _decodable(sd, raw):
+                    if e["cls"] != "ExecutionError":
+                        out.append(V("C14", "C14/%s-undecodable-payload-wrong-error/%s" % (ok_, e["cls"]), "%s: the delivered payload cannot be decoded by the configured serdes, result() raised %s" % (path, e["cls"]), e["i"]))
+                    continue  # the configured serdes cannot decode what was delivered: result() has to raise, every time
                 out.append(V("C14", "C14/%s-succeeded-but-call-raised/%s" % (ok_, e["cls"]), "%s is SUCCEEDED in the backend but the call raised %s: %s" % (path, e["cls"], str(e.get("msg"))[:80]), e["i"]))
                 continue
             if ok_ == "cb":
